@@ -75,6 +75,9 @@ pub enum Conf {
     /// trusted 1 / untrusted 2, zero-conf shielding NOT allowed (transparent coins then need
     /// `untrusted` confirmations)
     NoZeroConf,
+    /// trusted 1 / untrusted 10 (zero-conf shielding allowed): the anchor is the tip while third-party
+    /// receipts -- and notes produced by shielding third-party coins -- still need 10 confirmations
+    T1U10,
 }
 #[derive(Clone, Copy, Debug, PartialEq, Eq, Hash, PartialOrd, Ord, Serialize, Deserialize)]
 pub enum LockPol {
@@ -107,6 +110,18 @@ pub enum SelPol {
     PreferLockedX,
 }
 
+/// Address allow list of the `TransparentSpendPolicy` (transfers that may spend transparent coins):
+/// none (`any_account_addr`), the account's own address, an address of the OTHER wallet account,
+/// or both. Documented: the policy names which of *the account's* transparent UTXOs may be spent.
+#[derive(Clone, Copy, Debug, Default, PartialEq, Eq, Hash, PartialOrd, Ord, Serialize, Deserialize)]
+pub enum Allow {
+    #[default]
+    Any,
+    Own,
+    Other,
+    Both,
+}
+
 #[derive(Clone, Debug, PartialEq, Eq, Hash, PartialOrd, Ord, Serialize, Deserialize)]
 pub struct Req {
     pub entry: Entry,
@@ -123,6 +138,9 @@ pub struct Req {
     /// selector-instance lock policy (propose_transfer only)
     #[serde(default)]
     pub selpol: SelPol,
+    /// transparent address allow list (propose_transfer with transparent spending permitted)
+    #[serde(default)]
+    pub allow: Allow,
 }
 
 impl Req {
@@ -139,7 +157,7 @@ impl Req {
             if self.everything { "/everything" } else { "" },
             self.lock.map(|(o, b)| format!("/lock({o},{b})")).unwrap_or_default(),
             if self.selpol == SelPol::Default { String::new() } else { format!("/selector:{:?}", self.selpol) }
-        )
+        ) + &(if self.allow == Allow::Any { String::new() } else { format!("/allow:{:?}", self.allow) })
     }
 }
 
@@ -148,6 +166,7 @@ fn conf_policy(c: Conf) -> ConfirmationsPolicy {
         Conf::Min => ConfirmationsPolicy::MIN,
         Conf::Default => ConfirmationsPolicy::default(),
         Conf::NoZeroConf => ConfirmationsPolicy::new_unchecked(1, 2, false),
+        Conf::T1U10 => ConfirmationsPolicy::new_unchecked(1, 10, true),
     }
 }
 
@@ -186,6 +205,24 @@ fn required_confs(scope: Scope, pol: &ConfirmationsPolicy) -> u32 {
         Scope::Internal => u32::from(pol.trusted()),
         _ => u32::from(pol.untrusted()),
     }
+}
+
+/// (reference height, confirmations required) of a note. Ordinary notes are aged from their own
+/// mining height. A note produced by a wallet-internal shielding transaction is treated "as though
+/// the original transparent UTXOs had instead been received as untrusted shielded outputs"
+/// (ConfirmationsPolicy docs): it is aged from "the maximum height at which any transparent input
+/// to that transaction was received" (confirmations_until_spendable docs) and needs `untrusted`
+/// confirmations (no coin of the universe is user-trusted).
+fn conf_rule(v: &NoteView, pol: &ConfirmationsPolicy) -> Option<(u32, u32)> {
+    let own = v.mined?;
+    Some(match v.shield_input_height {
+        Some(hs) => (hs, u32::from(pol.untrusted())),
+        None => (own, required_confs(v.scope, pol)),
+    })
+}
+
+fn confirmed(v: &NoteView, target: u32, pol: &ConfirmationsPolicy) -> bool {
+    conf_rule(v, pol).is_some_and(|(h, need)| target.saturating_sub(h) >= need)
 }
 
 /// Leading identifiers of a Debug rendering: `NoteSelection(Balance(Overflow))` -> `NoteSelection:Balance`.
@@ -309,7 +346,7 @@ impl WitnessCache {
 /// and for the skip statistics)?
 fn eligible(v: &NoteView, target: u32, pol: &ConfirmationsPolicy, overridable: &BTreeSet<u8>, pools: &[ShieldedPool]) -> bool {
     v.owner == Owner::A
-        && v.mined.is_some_and(|h| target - h >= required_confs(v.scope, pol))
+        && confirmed(v, target, pol)
         && !v.spent_on_chain
         && !v.pending_spent
         && !v.lock.is_some_and(|(o, e)| e >= target && !overridable.contains(&o))
@@ -377,7 +414,12 @@ fn call(env: &Env, w: &mut Wallet, req: &Req, amount: u64) -> Result<Result<AnyP
                 let request = TransactionRequest::new(vec![Payment::new(to.to_zcash_address(&net), Some(Zatoshis::from_u64(amount).unwrap()), None, None, None, vec![]).map_err(|e| format!("Payment({e:?})"))?]).map_err(|e| format!("Zip321({e:?})"))?;
                 let mut sp = SpendPolicy::shielded_pools(permitted(req.pools)).with_locked_input_policy(lpol.clone());
                 if req.pools == Pools::AllPlusTransparent {
-                    sp = sp.with_transparent(TransparentSpendPolicy::any_account_addr());
+                    sp = sp.with_transparent(match req.allow {
+                        Allow::Any => TransparentSpendPolicy::any_account_addr(),
+                        Allow::Own => TransparentSpendPolicy::from_one_address(env.taddr_a),
+                        Allow::Other => TransparentSpendPolicy::from_one_address(env.taddr_b),
+                        Allow::Both => TransparentSpendPolicy::from_addresses(nonempty::NonEmpty::from((env.taddr_a, vec![env.taddr_b]))),
+                    });
                 }
                 let sel = match req.selpol {
                     SelPol::Default => GreedyInputSelector::<Db>::new(),
@@ -423,7 +465,9 @@ pub fn run_request_with(env: &Env, w: &mut Wallet, m: &Model, ledger: &[NoteView
     let ub_s: u64 = ledger.iter().filter(|v| eligible(v, target, &pol, &ovr, &pools)).map(|v| v.value).sum();
     let ub = match (req.entry, req.pools) {
         (Entry::Shield, _) => ub_t,
-        (Entry::Transfer, Pools::AllPlusTransparent) => ub_s + ub_t,
+        // every coin of account A sits at A's own address: an allow list naming only the other
+        // account's address admits none of them
+        (Entry::Transfer, Pools::AllPlusTransparent) => ub_s + if req.allow == Allow::Other { 0 } else { ub_t },
         _ => ub_s,
     };
     let amount = match (req.entry, req.amt) {
@@ -457,7 +501,7 @@ pub fn run_request_with(env: &Env, w: &mut Wallet, m: &Model, ledger: &[NoteView
                 if any(&|v| v.pending_spent) {
                     tags.push("pending-spend");
                 }
-                if any(&|v| v.mined.is_some_and(|h| target - h < required_confs(v.scope, &pol))) {
+                if any(&|v| !confirmed(v, target, &pol)) {
                     tags.push("unconfirmed");
                 }
             }
@@ -468,7 +512,11 @@ pub fn run_request_with(env: &Env, w: &mut Wallet, m: &Model, ledger: &[NoteView
             Ok(ReqResult { outcomes: outs, inputs: None, paid: None })
         }
         Ok(p) => {
-            // COVERAGE
+            // SOUNDNESS first (its messages name the specific clause), then COVERAGE
+            let (o, inputs, paid) = match &p {
+                AnyProp::Notes(p) => check_proposal(env, w, m, ledger, &utxos, req, amount, &pol, &ovr, &pools, p, cache)?,
+                AnyProp::Shield(p) => check_proposal(env, w, m, ledger, &utxos, req, amount, &pol, &ovr, &pools, p, cache)?,
+            };
             // propose_shielding: the threshold bounds the total input value (ShieldingSelector docs)
             let need = match req.entry {
                 Entry::SendMax => MIN_FEE,
@@ -483,10 +531,6 @@ pub fn run_request_with(env: &Env, w: &mut Wallet, m: &Model, ledger: &[NoteView
                 };
                 return Err(format!("a proposal was returned although the spendable funds cannot cover the request: reference upper bound of spendable value {ub} < {need} ({what}); target height {target}"));
             }
-            let (o, inputs, paid) = match &p {
-                AnyProp::Notes(p) => check_proposal(env, w, m, ledger, &utxos, req, amount, &pol, &ovr, &pools, p, cache)?,
-                AnyProp::Shield(p) => check_proposal(env, w, m, ledger, &utxos, req, amount, &pol, &ovr, &pools, p, cache)?,
-            };
             outs.extend(o);
             Ok(ReqResult { outcomes: outs, inputs: Some(inputs), paid: Some(paid) })
         }
@@ -561,9 +605,18 @@ fn check_proposal<N>(
                 if v.pending_spent {
                     return Err(format!("step {si}: selected input {name} is spent by a stored pending transaction that has not expired (target height {target}, stored {:?})", m.stored));
                 }
-                let need = required_confs(v.scope, pol);
-                if target - h < need {
-                    return Err(format!("step {si}: selected input {name} ({:?} scope, mined at {h}) has {} confirmations at target height {target}; the policy requires {need}", v.scope, target - h));
+                let (href, need) = conf_rule(v, pol).expect("mined");
+                if target.saturating_sub(href) < need {
+                    return Err(match v.shield_input_height {
+                        Some(hs) => format!(
+                            "step {si}: selected input {name} is the product of a shielding transaction whose newest transparent input was received at height {hs}: {} confirmations at target height {target}; the policy requires {need} (untrusted) for it",
+                            target.saturating_sub(hs)
+                        ),
+                        None => format!("step {si}: selected input {name} ({:?} scope, mined at {h}) has {} confirmations at target height {target}; the policy requires {need}", v.scope, target - h),
+                    });
+                }
+                if v.shield_input_height.is_some() {
+                    outs.push("ok:used-shielding-product".into());
                 }
                 if let Some((o, e)) = v.lock {
                     if e >= target {
@@ -612,7 +665,10 @@ fn check_proposal<N>(
                 return Err(format!("step {si}: selected transparent input {name} although the spend policy permits no transparent spending"));
             }
             if v.owner != Owner::A {
-                return Err(format!("step {si}: selected transparent input {name} was received at an address of account {:?}, not at the requested address / account A", v.owner));
+                return Err(format!("step {si}: selected transparent input {name} was received at an address of account {:?}: it does not belong to the requested account A (transparent address allow list: {:?})", v.owner, req.allow));
+            }
+            if req.allow == Allow::Other {
+                return Err(format!("step {si}: selected transparent input {name} sits at account A's own address, which the address allow list (the other account's address only) does not name"));
             }
             if !v.known {
                 return Err(format!("step {si}: selected transparent input {name} was never reported to the wallet"));
@@ -692,7 +748,10 @@ fn check_proposal<N>(
     if ledger.iter().filter(base).any(|v| v.pending_spent) {
         outs.push("ok:pending-spent-note-skipped".into());
     }
-    if ledger.iter().filter(base).any(|v| v.mined.is_some_and(|h| target - h < required_confs(v.scope, pol))) {
+    if ledger.iter().filter(base).any(|v| !confirmed(v, target, pol)) {
+        if ledger.iter().filter(base).any(|v| v.shield_input_height.is_some() && !confirmed(v, target, pol)) {
+            outs.push("ok:unconfirmed-shielding-product-skipped".into());
+        }
         outs.push("ok:unconfirmed-note-skipped".into());
     }
     if ledger.iter().any(|v| v.owner == Owner::A && v.mined.is_none() && matches!(v.key, NoteKey::D(..))) {
@@ -727,11 +786,16 @@ pub struct Lattice {
 }
 
 fn rq(entry: Entry, amt: Amt, rcpt: Rcpt, conf: Conf, lockpol: LockPol, chg: Chg, pools: Pools, everything: bool) -> Req {
-    Req { entry, amt, rcpt, conf, lockpol, chg, pools, everything, lock: None, selpol: SelPol::Default }
+    Req { entry, amt, rcpt, conf, lockpol, chg, pools, everything, lock: None, selpol: SelPol::Default, allow: Allow::Any }
 }
 
 fn with_sel(mut r: Req, s: SelPol) -> Req {
     r.selpol = s;
+    r
+}
+
+fn with_allow(mut r: Req, a: Allow) -> Req {
+    r.allow = a;
     r
 }
 
@@ -805,12 +869,33 @@ pub fn lattice(level: usize) -> Lattice {
                 }
             }
         }
+        for a in [Fixed(30_000), Fixed(100_000), UbMinus(MIN_FEE - 1), UbPlus(1)] {
+            for r in [Rcpt::Sapling, Rcpt::Transparent] {
+                for c in [Conf::Min, Conf::NoZeroConf] {
+                    for l in [LockPol::Exclude, LockPol::PreferUnlockedXY] {
+                        for al in [Allow::Own, Allow::Other, Allow::Both] {
+                            v.push(with_allow(rq(Entry::Transfer, a, r, c, l, Chg::Single, Pools::AllPlusTransparent, false), al));
+                        }
+                    }
+                }
+            }
+        }
+        for l in lps {
+            v.push(rq(Entry::SendMax, Fixed(0), Rcpt::Sapling, Conf::T1U10, l, Chg::Single, Pools::All, false));
+            v.push(rq(Entry::Transfer, UbPlus(1), Rcpt::Sapling, Conf::T1U10, l, Chg::Single, Pools::SaplingOnly, false));
+            v.push(rq(Entry::Transfer, UbMinus(MIN_FEE - 1), Rcpt::Sapling, Conf::T1U10, l, Chg::Single, Pools::SaplingOnly, false));
+            for a in [Fixed(30_000), Fixed(100_000), UbMinus(MIN_FEE - 1), UbPlus(1)] {
+                for r in [Rcpt::Sapling, Rcpt::Unified] {
+                    v.push(rq(Entry::Transfer, a, r, Conf::T1U10, l, Chg::Single, Pools::All, false));
+                }
+            }
+        }
         Lattice {
             reqs: v,
             describe: "thorough: propose_transfer {30k,100k,1M/2M/5M (canonical ZIP 318 denominations whose oldest single covering Orchard note lies before / at / after the bucketed anchor boundary),1.25M,UB-10000,UB-9999,UB+1} x {Sapling,UA/Orchard,P2PKH,TEX} x {MIN,3/10} x {Exclude,PreferUnlocked{X},PreferLocked{X},PreferUnlocked{X,Y}} x {single,split change}; \
                        Sapling-only spend policy for 3 amounts x 2 recipients x 2 x 2; propose_standard_transfer_to_address 9 amounts x 3 recipients x 2 policies; propose_send_max_transfer 4 recipients x 2 x 4 x {all pools,Sapling only} x {MaxSpendable,Everything}, \
                        each MaxSpendable one followed by propose_transfer of exactly the send-max amount and of that amount + 1 (single and split change); \
-                       propose_shielding thresholds {10k,85k,UB,UB+1} x {MIN,3/10,1/2 without zero-conf} x 4 lock policies; propose_transfer with transparent spending permitted {30k,100k,1.25M,UB-9999,UB+1} x 3 recipients x 3 policies x {Exclude,PreferLocked{X}} x selector-instance lock policy {default,PreferUnlocked{X},PreferLocked{X}}"
+                       propose_shielding thresholds {10k,85k,UB,UB+1} x {MIN,3/10,1/2 without zero-conf} x 4 lock policies; propose_transfer with transparent spending permitted {30k,100k,1.25M,UB-9999,UB+1} x 3 recipients x 3 policies x {Exclude,PreferLocked{X}} x selector-instance lock policy {default,PreferUnlocked{X},PreferLocked{X}}; transparent address allow list {own,other account's,both} x {30k,100k,UB-9999,UB+1} x {Sapling,P2PKH} x 2 policies x 2 lock policies; policy trusted 1 / untrusted 10: send-max, {30k,100k,UB-9999,UB+1} x 2 recipients and Sapling-only {UB-9999,UB+1}, x 4 lock policies"
                 .into(),
         }
     } else if level == 2 {
@@ -891,12 +976,23 @@ pub fn lattice(level: usize) -> Lattice {
             }
         }
         v.push(with_sel(rq(Entry::Transfer, Fixed(100_000), Rcpt::Unified, Conf::Default, LockPol::Exclude, Chg::Single, Pools::All, false), SelPol::PreferLockedX));
+        // transparent address allow list: own address / the OTHER account's address / both
+        for a in [Fixed(100_000), UbMinus(MIN_FEE - 1)] {
+            for al in [Allow::Own, Allow::Other, Allow::Both] {
+                v.push(with_allow(rq(Entry::Transfer, a, Rcpt::Sapling, Conf::Min, LockPol::Exclude, Chg::Single, Pools::AllPlusTransparent, false), al));
+            }
+        }
+        // trusted 1 / untrusted 10: shielding products are aged by their newest shielded coin
+        v.push(rq(Entry::SendMax, Fixed(0), Rcpt::Sapling, Conf::T1U10, LockPol::Exclude, Chg::Single, Pools::All, false));
+        v.push(rq(Entry::Transfer, Fixed(100_000), Rcpt::Sapling, Conf::T1U10, LockPol::Exclude, Chg::Single, Pools::All, false));
+        v.push(rq(Entry::Transfer, UbPlus(1), Rcpt::Sapling, Conf::T1U10, LockPol::Exclude, Chg::Single, Pools::SaplingOnly, false));
+        v.push(rq(Entry::Transfer, UbPlus(1), Rcpt::Sapling, Conf::T1U10, LockPol::Exclude, Chg::Single, Pools::All, false));
         Lattice {
             reqs: v,
             describe: "quick (pruned): propose_transfer {30k,100k,1M,UB-9999} x {Sapling,UA/Orchard} x {MIN,3/10} x 4 lock policies, single change; canonical 2M and 5M (covering Orchard note mined at / after the bucketed anchor boundary) to UA x 2 x 4 and through propose_standard_transfer_to_address x 2; split change for {30k,100k} x 2 recipients x 2 x {Exclude,PreferLocked{X}}; \
                        P2PKH and TEX recipients for 30k x 2 x {Exclude,PreferUnlocked{X,Y}}; one Sapling-only spend policy request per confirmation policy; propose_standard_transfer_to_address 1.25M x 3 recipients x 2 and 30k to P2PKH x 2; \
                        propose_send_max_transfer 2 recipients x 2 x {Exclude,PreferUnlocked{X,Y}} MaxSpendable and x Exclude Everything, the Exclude one followed by propose_transfer of exactly that amount and of that amount + 1; \
-                       propose_shielding thresholds {10k,UB+1} x {MIN,3/10,1/2 without zero-conf} x {Exclude,PreferUnlocked{X,Y}}; propose_transfer with transparent spending permitted {100k,UB-9999} to Sapling x {MIN,1/2 without zero-conf} x {Exclude,PreferLocked{X}}; selector-instance lock policy {PreferUnlocked{X},PreferLocked{X}} x per-call {Exclude,PreferLocked{X}} x {30k,100k} with transparent spending permitted (and one shielded-only request)"
+                       propose_shielding thresholds {10k,UB+1} x {MIN,3/10,1/2 without zero-conf} x {Exclude,PreferUnlocked{X,Y}}; propose_transfer with transparent spending permitted {100k,UB-9999} to Sapling x {MIN,1/2 without zero-conf} x {Exclude,PreferLocked{X}}; selector-instance lock policy {PreferUnlocked{X},PreferLocked{X}} x per-call {Exclude,PreferLocked{X}} x {30k,100k} with transparent spending permitted (and one shielded-only request); transparent address allow list {own,other account's,both} x {100k,UB-9999}; policy trusted 1 / untrusted 10: send-max, 100k, UB+1 and Sapling-only UB+1 to Sapling"
                 .into(),
         }
     } else if level == 1 {
@@ -916,10 +1012,13 @@ pub fn lattice(level: usize) -> Lattice {
         v.push(rq(Entry::Shield, Fixed(10_000), Rcpt::Sapling, Conf::Min, LockPol::Exclude, Chg::Single, Pools::All, false));
         v.push(rq(Entry::Transfer, Fixed(100_000), Rcpt::Sapling, Conf::Min, LockPol::Exclude, Chg::Single, Pools::AllPlusTransparent, false));
         v.push(with_sel(rq(Entry::Transfer, Fixed(100_000), Rcpt::Sapling, Conf::Min, LockPol::Exclude, Chg::Single, Pools::AllPlusTransparent, false), SelPol::PreferUnlockedX));
+        v.push(with_allow(rq(Entry::Transfer, Fixed(100_000), Rcpt::Sapling, Conf::Min, LockPol::Exclude, Chg::Single, Pools::AllPlusTransparent, false), Allow::Both));
+        v.push(rq(Entry::SendMax, Fixed(0), Rcpt::Sapling, Conf::T1U10, LockPol::Exclude, Chg::Single, Pools::All, false));
+        v.push(rq(Entry::Transfer, UbPlus(1), Rcpt::Sapling, Conf::T1U10, LockPol::Exclude, Chg::Single, Pools::SaplingOnly, false));
         Lattice {
             reqs: v,
             describe: "core: propose_transfer 100k x {Sapling,UA/Orchard} x {MIN,3/10} Exclude, 100k to Sapling MIN PreferLocked{X}, 30k to TEX; canonical ZIP 318 crossings 2M and 5M to UA under MIN; \
-                       propose_send_max_transfer (MaxSpendable: selects every eligible note) to Sapling under (MIN,Exclude), (3/10,Exclude), (MIN,PreferUnlocked{X,Y}); propose_shielding threshold 10k under MIN; propose_transfer 100k with transparent spending permitted, with the default selector and with a selector instance configured PreferUnlocked{X}"
+                       propose_send_max_transfer (MaxSpendable: selects every eligible note) to Sapling under (MIN,Exclude), (3/10,Exclude), (MIN,PreferUnlocked{X,Y}); propose_shielding threshold 10k under MIN; propose_transfer 100k with transparent spending permitted, with the default selector, with a selector instance configured PreferUnlocked{X}, and with the address allow list {own, other account's}; send-max and Sapling-only UB+1 under trusted 1 / untrusted 10"
                 .into(),
         }
     } else {
@@ -927,6 +1026,10 @@ pub fn lattice(level: usize) -> Lattice {
         for c in confs {
             v.push(rq(Entry::SendMax, Fixed(0), Rcpt::Sapling, c, LockPol::Exclude, Chg::Single, Pools::All, false));
         }
+        v.push(rq(Entry::SendMax, Fixed(0), Rcpt::Sapling, Conf::T1U10, LockPol::Exclude, Chg::Single, Pools::All, false));
+        // value-targeted selection (a different query than send-max) asked for one zatoshi more than
+        // the reference bound of the Sapling pool: must be refused
+        v.push(rq(Entry::Transfer, UbPlus(1), Rcpt::Sapling, Conf::T1U10, LockPol::Exclude, Chg::Single, Pools::SaplingOnly, false));
         v.push(rq(Entry::Shield, Fixed(10_000), Rcpt::Sapling, Conf::Min, LockPol::Exclude, Chg::Single, Pools::All, false));
         v.push(with_sel(rq(Entry::Transfer, Fixed(100_000), Rcpt::Sapling, Conf::Min, LockPol::Exclude, Chg::Single, Pools::AllPlusTransparent, false), SelPol::PreferUnlockedX));
         v.push(rq(Entry::Transfer, Fixed(100_000), Rcpt::Unified, Conf::Default, LockPol::Exclude, Chg::Single, Pools::All, false));
@@ -934,7 +1037,7 @@ pub fn lattice(level: usize) -> Lattice {
         v.push(rq(Entry::Transfer, Fixed(5_000_000), Rcpt::Unified, Conf::Min, LockPol::Exclude, Chg::Single, Pools::All, false));
         Lattice {
             reqs: v,
-            describe: "mini (last level only): propose_send_max_transfer to Sapling x {MIN,3/10} Exclude (selects every eligible note); propose_shielding 10k under MIN (every eligible coin); propose_transfer 100k with transparent spending permitted and a selector instance configured PreferUnlocked{X}; \
+            describe: "mini (last level only): propose_send_max_transfer to Sapling x {MIN,3/10,trusted 1/untrusted 10} Exclude (selects every eligible note); Sapling-only UB+1 under trusted 1/untrusted 10 (value-targeted query; must be refused); propose_shielding 10k under MIN (every eligible coin); propose_transfer 100k with transparent spending permitted and a selector instance configured PreferUnlocked{X}; \
                        100k to UA under 3/10; 100k to Sapling under MIN PreferLocked{X}; canonical 5M to UA under MIN"
                 .into(),
         }
